@@ -376,3 +376,34 @@ def c07_9(ctx):
     rr = [r for r in ast.walk(g.node) if isinstance(r, ast.Return) and isinstance(r.value, ast.IfExp)]
     if not rr or N(rr[0].value.test) != 'is_str(%s)' % g.params[0] or const(rr[0].value.body) != 0:
         ctx.fail(g, g.node, 'len0 of a string is no longer 0')
+
+
+@obligation('C07.10', 'PATH (symbolic summary) table', '_as_primitive:_as_primitive',
+            'cmp compares as_primitive(x) with as_primitive(y): numpy scalars must become Python numbers first (np.float64 IS a float and np.int64 compares by type name otherwise), so every path that hands the value back unchanged must have ruled out is_bool/is_int/is_float/is_date before; numeric equality across int/float and NaN-above-finite depend on it',
+            axioms=('A1',))
+def c07_10(ctx):
+    f = ctx.repo.fn('_as_primitive:_as_primitive')
+    v = f.params[0]
+    conv = {'is_bool(%s)' % v: None, 'is_int(%s)' % v: 'int(%s)' % v, 'is_float(%s)' % v: 'float(%s)' % v, 'is_date(%s)' % v: 'dt(%s)' % v}
+    sp = [p for p in sym_paths(f) if p.term == 'return']
+    ctx.need(len(sp) >= 5, '_as_primitive: conversion table not found')
+    seen = set()
+    for p in sp:
+        ctx.count(1, f.where(p.node))
+        at = {t: pol for t, pol, _ in p.atoms()}
+        hit = [k for k in conv if at.get(NS(k)) is True]
+        if hit:
+            k = hit[0]
+            seen.add(k)
+            if conv[k] is not None and p.text() != NS(conv[k]):
+                ctx.fail(f, p.node, 'a value with %s is returned as `%s`, expected %s' % (k, p.text(), conv[k]))
+            if conv[k] is None and p.text() not in ('True', 'False'):
+                ctx.fail(f, p.node, 'a boolean-like value is returned as `%s`, expected the Python bool' % p.text())
+            continue
+        if p.text() == v or (p.value is not None and v in {n.id for n in ast.walk(p.value) if isinstance(n, ast.Name)} and not isinstance(p.value, ast.Call)):
+            missing = [k for k in conv if at.get(NS(k)) is not False]
+            if missing:
+                ctx.fail(f, p.node, 'the value is handed back unchanged on the path [%s] before %s was ruled out: a numpy scalar (np.float64 is a float, np.int64 is not an int) escapes conversion and cmp ranks it by type name' % (
+                    ' & '.join(('' if q else 'not ') + t for t, q, _ in p.conds), ', '.join(missing)), witness='cmp(np.float64(2.0), 2) must be 0')
+    if not ctx.findings and seen != set(conv):
+        ctx.fail(f, f.node, '_as_primitive no longer converts %s' % sorted(set(conv) - seen))
